@@ -252,7 +252,7 @@ def object_case(c):
             base = np.array([[rng.uniform(-1, 1) for _ in range(nq)] for _ in range(nz)])
             kind = 'random'
             phi = base
-        cs = ac.spline_coeff_rows(pg._interpolator, pg._thetaSpline, [phi[i, :] for i in range(nz)])
+        cs = ac.spline_coeff_rows(*ac.own_tools(bs[1]), [phi[i, :] for i in range(nz)])
         der = np.empty((nz, nq))
         pg.parallel_gradient(phi, ri, der)
         tvx = [[[fr(x) for x in krow] for krow in zrow] for zrow in out['tv'][ri]]
